@@ -8,7 +8,7 @@ VARIABLE l
 tv == <<vars, l>>
 ToMsg(j) == [from |-> j.from, kind |-> j.kind, src |-> j.src, dst |-> j.dst, tid |-> j.tid, uc |-> j.uc, rolea |-> j.rolea,
              user |-> <<j.user[1], j.user[2]>>, key |-> <<j.key[1], j.key[2]>>, prio |-> j.prio, tbc |-> j.tbc, copy |-> j.copy, nom |-> j.nom]
-ProjPairs(ps) == [k \in 1..Len(ps) |-> [id |-> ps[k].id, l |-> ps[k].l, r |-> ps[k].r, st |-> ps[k].st, nom |-> ps[k].nom, nos |-> ps[k].nos, reqs |-> ps[k].reqs]]
+ProjPairs(ps) == [k \in 1..Len(ps) |-> [id |-> ps[k].id, l |-> ps[k].l, r |-> ps[k].r, rt |-> ps[k].rt, st |-> ps[k].st, nom |-> ps[k].nom, nos |-> ps[k].nos, reqs |-> ps[k].reqs]]
 ToData(j) == [from |-> j.from, src |-> j.src, dst |-> j.dst, pid |-> j.pid]
 ProjTxn(x) == [tid |-> x.tid, dst |-> x.dst, uc |-> x.uc, nom |-> x.nom]
 PostOK(j) ==
